@@ -37,6 +37,10 @@ func (sim) Generate(prop, tier string, seed uint64) *core.Plan {
 
 func (sim) Execute(env *core.Env, p *core.Plan) {
 	bug := os.Getenv("VERIF_TOY_BUG") == "1"
+	if os.Getenv("VERIF_TOY_BUG") == "2" && p.C("limit", 0) == 77 {
+		for { // planted hang (watchdog self-test)
+		}
+	}
 	total, model := int64(0), int64(0)
 	for i, op := range p.Ops {
 		env.Step(i)
